@@ -222,6 +222,18 @@ func runC16sched(s *c16sched) (arr []string, final string) {
 	warmed := make([]bool, len(s.budgets))
 	nsent := make([]int, len(s.budgets))
 	for i := range s.budgets {
+		if (sid+i)%3 == 0 {
+			// this connection has been through a failed extended batch whose remaining messages were
+			// skipped up to the Sync: whatever was counted for them must have been released again
+			ct.mu.Lock()
+			ct.free = true
+			ct.mu.Unlock()
+			conns[i].push(cat(mBind([]byte("x"), []byte("nosuch"), nil, nil, nil), mDescribe('P', []byte("x")), mExecute([]byte("x"), 0), mFlush(), mSync()))
+			conns[i].waitIdle(stepWait)
+			ct.mu.Lock()
+			ct.free = false
+			ct.mu.Unlock()
+		}
 		if (sid+i)%2 == 0 {
 			continue
 		}
